@@ -43,3 +43,49 @@ package parsepath
 //@   assigns s.pos
 //@   sweep[C19]
 //@   ensures[C19] result != nil && old(s.pos) <= s.pos && s.pos <= len(s.buf) && (old(s.pos) < len(s.buf) ==> s.pos > old(s.pos)) && (old(s.pos) >= len(s.buf) ==> result.Kind == 9)
+
+// Index literals (C19 "list indices and map keys of every key type"): a number literal is accepted as a list index
+// exactly when it is a Go integer literal that fits in 64 bits (any base prefix), and then denotes that integer; as a
+// map key it is accepted exactly when it fits the key kind's width (kinds: 5 int32, 3 int64, 13 uint32, 4 uint64),
+// and the key carries that integer (num is the raw 64-bit two's-complement image protoreflect stores); for every
+// other key kind it is refused. Bool and string literals are keys only of bool (8) and string (9) maps and never
+// list indices.
+//@ func (*numberForAccess).castInt
+//@   requires n != nil
+//@   assigns nothing
+//@   sweep[C19]
+//@   ensures[C19] result1 == intLitOK(n.lit, 0, 64)
+//@   ensures[C19] result1 ==> result0 == intLitVal(n.lit, 0)
+
+//@ func (*numberForAccess).castKey
+//@   requires n != nil
+//@   assigns nothing
+//@   sweep[C19]
+//@   ensures[C19] kind == 5 ==> result1 == intLitOK(n.lit, 0, 32)
+//@   ensures[C19] kind == 3 ==> result1 == intLitOK(n.lit, 0, 64)
+//@   ensures[C19] kind == 13 ==> result1 == uintLitOK(n.lit, 0, 32)
+//@   ensures[C19] kind == 4 ==> result1 == uintLitOK(n.lit, 0, 64)
+//@   ensures[C19] kind != 5 && kind != 3 && kind != 13 && kind != 4 ==> !result1
+//@   ensures[C19] result1 && (kind == 5 || kind == 3) ==> result0.num == ite(intLitVal(n.lit, 0) < 0, intLitVal(n.lit, 0) + 18446744073709551616, intLitVal(n.lit, 0))
+//@   ensures[C19] result1 && (kind == 13 || kind == 4) ==> result0.num == uintLitVal(n.lit, 0)
+
+//@ func (*boolAccess).castInt
+//@   assigns nothing
+//@   ensures[C19] !result1
+
+//@ func (*stringForMapKey).castInt
+//@   assigns nothing
+//@   ensures[C19] !result1
+
+//@ func (*boolAccess).castKey
+//@   requires b != nil
+//@   assigns nothing
+//@   sweep[C19]
+//@   ensures[C19] result1 == (keyKind == 8)
+//@   ensures[C19] result1 ==> result0.num == ite(b.b, 1, 0)
+
+//@ func (*stringForMapKey).castKey
+//@   requires s != nil
+//@   assigns nothing
+//@   sweep[C19]
+//@   ensures[C19] result1 == (keyKind == 9)
